@@ -1121,6 +1121,13 @@ def simp(v):
             return ("idx", m[2], v[2])
     if k == "sub" and v[2][0] == "idx" and v[2][1] == v[1]:
         return ("elem", v[1], v[2][2])
+    # an element of range(lo, lo + n) is lo + an element of range(n): ranges are compared zero-based
+    if k == "elem" and v[1][0] == "call" and v[1][1] == ("global", "range") and len(v[1][2]) == 2 and not v[1][3]:
+        lo, hi = v[1][2]
+        if hi[0] == "binop" and hi[1] == "Add" and lo != ("const", 0):
+            n = hi[3] if hi[2] == lo else hi[2] if hi[3] == lo else None
+            if n is not None:
+                return ("binop", "Add", lo, ("elem", ("call", ("global", "range"), (n,), ()), v[2]))
     if k == "elem" and v[1][0] in ("phi", "ifexp"):
         return ("phi", v[1][1], simp(("elem", v[1][2], v[2])), simp(("elem", v[1][3], v[2])))
     if k == "elem":
